@@ -1,45 +1,9 @@
 (* C20: facts about cut points of the pass loops. *)
 From Coq Require Import ZArith List Bool Lia.
 Require Import Model.Base Model.Field Model.Ir Model.Propagate Model.Justify Proofs.IrInd.
+Require Export Model.Clean.
 Import ListNotations.
 Local Open Scope Z_scope.
-
-(* a graph that carries no value claim at all (the state before the first pass) *)
-Fixpoint clean_expr (e : expr) {struct e} : bool :=
-  let fix clean_list (es : list expr) : bool :=
-      match es with [] => true | x :: tl => clean_expr x && clean_list tl end in
-  let fix clean_acc (acc : list (access expr)) : bool :=
-      match acc with
-      | [] => true
-      | AIdx x :: tl => clean_expr x && clean_acc tl
-      | AComp _ :: tl => clean_acc tl
-      end in
-  claim_none (expr_know e) &&
-  match e with
-  | ENum z _ => 0 <=? z
-  | EVar _ _ => true
-  | EInfix _ l r _ => clean_expr l && clean_expr r
-  | EPrefix _ x _ => clean_expr x
-  | ESwitch c t f _ => clean_expr c && clean_expr t && clean_expr f
-  | ECall _ args _ => clean_list args
-  | EArray vs _ => clean_list vs
-  | EAccess _ acc _ => clean_acc acc
-  | EUpdate _ acc rhe _ => clean_expr rhe && clean_acc acc
-  | EPhi _ _ => true
-  end.
-
-Definition clean_stmt (s : stmt) : bool :=
-  match s with
-  | SDecl _ _ _ dims => forallb clean_expr dims
-  | SIf _ c _ _ => clean_expr c
-  | SRet _ e => clean_expr e
-  | SSubst _ _ _ rhe sval _ => clean_expr rhe && match sval with None => true | Some _ => false end
-  | SCeq _ l r => clean_expr l && clean_expr r
-  | SLog _ args => forallb (fun a => match a with LStr => true | LExpr e => clean_expr e end) args
-  | SAssert _ e => clean_expr e
-  end.
-
-Definition clean_cfg (c : cfg) : bool := forallb clean_stmt (all_stmts (c_blocks c)).
 
 Lemma clean_expr_vjust ss p e : clean_expr e = true -> vjust_expr ss p e = true.
 Proof.
